@@ -72,6 +72,9 @@ def check(ctx):
                 ctx.mc_runs.append(dict(name='NpcProgram[%s cfg%d]' % (stage, r['idx']), **r[stage]['summary']))
         for b in r['behaviours']:
             b['variant'] = (len(behs) + ctx.seed) % 3
+            # dtype of the initial tensors: float64/complex128, float32/complex64 or int64 (values are small integers, so
+            # every dtype represents them exactly and both configurations must agree bit for bit, including the dtype)
+            b['dtype_variant'] = ((len(behs) + ctx.seed) // 3) % 3
             behs.append(b)
     d = tlc.scratch('c04')
     try:
